@@ -293,6 +293,49 @@ def _indent_of(text, offset):
     return m.group(0)
 
 
+def _nested_n2(text, toks, bo, bc, edits, log, k):
+    """Rule N2 inside the block toks[bo]..toks[bc] that ends a `for` body (see the caller). Returns the number of rewrites."""
+    q = bo + 1
+    n = 0
+    while q < bc:
+        x = toks[q]
+        at_stmt_start = toks[q - 1].text in ("{", ";", "}")
+        if x.kind == "ident" and x.text == "if" and at_stmt_start and toks[q + 1].text != "let":
+            dd = 0
+            b = q + 1
+            while not (toks[b].text == "{" and dd == 0):
+                if toks[b].text in ("(", "["):
+                    dd += 1
+                elif toks[b].text in (")", "]"):
+                    dd -= 1
+                b += 1
+            c2 = match_close(toks, b)
+            if c2 == b + 3 and toks[b + 1].text == "continue" and toks[b + 2].text == ";" and toks[c2 + 1].text != "else":
+                cond = text[toks[q + 1].start:toks[b - 1].end]
+                edits.append((toks[q].start, toks[c2].end, "if !(%s) {" % cond))
+                n += 1
+                if log is not None:
+                    log.append({"rule": "N2", "loop": k, "cond": cond, "nested": True})
+                q = c2 + 1
+                continue
+            if toks[c2 + 1].text != "else" and c2 + 1 == bc:
+                _nested_n2(text, toks, b, c2, edits, log, k)
+            q = c2 + 1
+            while q < bc and toks[q].text == "else":
+                b2 = q + 1
+                while toks[b2].text != "{":
+                    b2 += 1
+                q = match_close(toks, b2) + 1
+            continue
+        if x.kind == "punct" and x.text in OPEN:
+            q = match_close(toks, q) + 1
+            continue
+        q += 1
+    if n:
+        edits.append((toks[bc].start, toks[bc].start, " ".join(["}"] * n) + " "))
+    return 0
+
+
 def normalise_fn(text, log=None, result_name="r_", signature_only=False):
     """Rules A1-A4, N1 on one fn item (attributes already dropped).
 
@@ -399,6 +442,10 @@ def normalise_fn(text, log=None, result_name="r_", signature_only=False):
                                 log.append({"rule": "N2", "loop": k, "cond": cond})
                             q = bc + 1
                             continue
+                        if toks[bc + 1].text != "else" and bc + 1 == close:
+                            # N2 (nested): the else-less `if` is the LAST statement of the loop body, so a `continue` inside its
+                            # block only skips the rest of that block: `if C { continue; } R` => `if !(C) { R }` there too
+                            n2 += _nested_n2(text, toks, b, bc, edits, log, k)
                         # skip the whole if/else chain
                         q = bc + 1
                         while q < close and toks[q].text == "else":
@@ -653,6 +700,40 @@ def prepass(text, opaque=None, log=None):
                 if log is not None:
                     log.append({"rule": "N3", "head": head, "cond": cond})
         i += 1
+    # N3b: else-less chain with the condition first  `if C && let P = E { B }`  =>  `if C { if let P = E { B } }`
+    i = 0
+    while i + 1 < len(toks):
+        if texts[i] == "if" and texts[i + 1] != "let" and (i == 0 or texts[i - 1] != "else"):
+            d = 0
+            j = i + 1
+            amp = None
+            while j < len(toks):
+                x = texts[j]
+                if x in ("(", "["):
+                    d += 1
+                elif x in (")", "]"):
+                    d -= 1
+                elif x == "{" and d == 0:
+                    break
+                elif x == "&&" and d == 0 and amp is None and texts[j + 1] == "let":
+                    amp = j
+                elif x in (";", "}") and d == 0:
+                    j = len(toks)
+                    break
+                j += 1
+            if amp is not None and j < len(toks):
+                bc = match_close(toks, j)
+                if bc + 1 < len(toks) and texts[bc + 1] == "else":
+                    raise ExtractError("N3b: let-chain with else is not supported")
+                cond = text[toks[i + 1].start:toks[amp - 1].end]
+                head = text[toks[amp + 1].start:toks[j - 1].end]
+                if "&&" in [t.text for t in code_tokens(head)]:
+                    raise ExtractError("N3b: longer let-chain is not supported")
+                edits.append((toks[amp - 1].end, toks[amp + 1].start, " { if "))
+                edits.append((toks[bc].end, toks[bc].end, " }"))
+                if log is not None:
+                    log.append({"rule": "N3b", "head": head, "cond": cond})
+        i += 1
     # N2b
     i = 0
     while i + 4 < len(toks):
@@ -737,6 +818,25 @@ def invert_prepass(s, rules):
             if s[e + 1] != "}":
                 raise ExtractError("N3 inverse: outer block does not close right after the inner one")
             s = s[:i] + ["if"] + head + ["&&"] + cond + ["{"] + s[i + len(pat):e] + ["}"] + s[e + 2:]
+        elif r["rule"] == "N3b":
+            head = [t.text for t in code_tokens(r["head"])]
+            cond = [t.text for t in code_tokens(r["cond"])]
+            pat = ["if"] + cond + ["{", "if"] + head + ["{"]
+            i = _find_seq(s, pat)
+            if i < 0:
+                raise ExtractError("N3b inverse: nested form of %r not found" % r["head"])
+            d = 0
+            e = i + len(pat) - 1
+            for e in range(i + len(pat) - 1, len(s)):
+                if s[e] in ("(", "[", "{"):
+                    d += 1
+                elif s[e] in (")", "]", "}"):
+                    d -= 1
+                    if d == 0:
+                        break
+            if s[e + 1] != "}":
+                raise ExtractError("N3b inverse: outer block does not close right after the inner one")
+            s = s[:i] + ["if"] + cond + ["&&"] + head + ["{"] + s[i + len(pat):e] + ["}"] + s[e + 2:]
         elif r["rule"] == "N2b":
             pat = ["else", "{", "(", ")", ";", "}"]
             i = _find_seq(s, pat)
